@@ -39,10 +39,10 @@ type vC04Case struct {
 func verifC04Rules() {
 	name := []byte("pub.example")
 	k := vMakeKey(0, vByte(), [][2]uint16{{1, 1}}, name)
-	free := []vExt{{51, vBytes(1)}, {10, vBytes(1)}}
+	free := []vExt{{51, vBytes(1)}, {10, vBytes(1)}, {13, vBytes(1)}}
 	outer := vHello{version: 0x0303, random: vBytes(32), sid: vBytes(1), suites: []byte{0x13, 0x01}, comp: []byte{0}}
-	outer.exts = []vExt{vSNI(name), vVersions(0x0304), free[0], free[1], {0xfe0d, nil}}
-	echIdx := 4
+	outer.exts = []vExt{vSNI(name), vVersions(0x0304), free[0], free[1], free[2], {0xfe0d, nil}}
+	echIdx := 5
 	innerExts := []vExt{vSNI(vBytes(2)), vECHInner(), vVersions(0x0304)}
 	inner := vHello{version: 0x0303, random: vBytes(32), suites: []byte{0x13, 0x02}, comp: []byte{0}, exts: innerExts}
 	pad := []byte{0, 0, 0}
@@ -113,14 +113,16 @@ func verifC04Rules() {
 		inner.exts = append(inner.exts, vExt{0xfd00, shapes[vInt(0, 3)]})
 	case 9:
 		what = "R8b references out of order"
-		inner.exts = append(inner.exts, vOuterExtensions([]uint16{10, 51}))
+		lists := [][]uint16{{10, 51}, {51, 13, 10}, {10, 13, 51}}
+		inner.exts = append(inner.exts, vOuterExtensions(lists[vInt(0, 2)]))
 	case 10:
 		what = "R8c repeated reference"
-		inner.exts = append(inner.exts, vOuterExtensions([]uint16{51, 51}))
+		lists := [][]uint16{{51, 51}, {51, 10, 10}, {51, 13, 51}, {10, 13, 13}}
+		inner.exts = append(inner.exts, vOuterExtensions(lists[vInt(0, 3)]))
 	case 11:
 		what = "R8d reference absent from the outer hello"
 		t := vUint16()
-		vAssume(t != 0 && t != 43 && t != 51 && t != 10 && t != 0xfe0d && t != 0xfd00)
+		vAssume(t != 0 && t != 43 && t != 51 && t != 10 && t != 13 && t != 0xfe0d && t != 0xfd00)
 		inner.exts = append(inner.exts, vOuterExtensions([]uint16{t}))
 	case 12:
 		what = "R8e reference names an ECH extension type"
@@ -154,9 +156,9 @@ func verifC04Rules() {
 			// rules on the outer hello alone do not depend on the versions it offers
 			switch vInt(0, 2) {
 			case 1:
-				outer.exts[echIdx-3] = vVersions(0x0303)
+				outer.exts[echIdx-4] = vVersions(0x0303)
 			case 2:
-				outer.exts = append(append([]vExt{}, outer.exts[:echIdx-3]...), outer.exts[echIdx-2:]...)
+				outer.exts = append(append([]vExt{}, outer.exts[:echIdx-4]...), outer.exts[echIdx-3:]...)
 				echIdx--
 			}
 		}
